@@ -260,13 +260,18 @@ def pipeOp : Handler := fun args =>
   match docs.mapM id with
   | .error e => bad e
   | .ok raws =>
-    let o : CV.C01.Pipe.Opts := { skipInterpolation := true, skipValidation := !(getBool args "validate"), skipDefaultValues := getBool args "skip_defaults",
-                                  skipNormalization := !(getBool args "normalize"), resolvePaths := false }
+    let look (l : List (String × String)) (s : String) : Option String :=
+      match l.find? (fun p => p.1 == s) with
+      | some p => some p.2
+      | none => none
+    let o : CV.C01.Pipe.Opts := { skipInterpolation := !(getBool args "interpolate"), skipValidation := !(getBool args "validate"), skipDefaultValues := getBool args "skip_defaults",
+                                  skipNormalization := !(getBool args "normalize"), resolvePaths := getBool args "resolve_paths" }
     let P : CV.C01.Pipe.Params :=
-      { interp := { table := [], fp := { f64 := fun _ => none, f32 := fun _ => none }, env := fun _ => none },
+      { interp := { table := CV.Gen.castTable, fp := { f64 := look (getStrMap args "f64"), f32 := look (getStrMap args "f32") },
+                    env := envOfList (getStrMap args "env") },
         omitPats := patsOf args
         defaults := CV.Gen.defaultValues
-        paths := { wd := "/".toList, home := none }
+        paths := { wd := (getStr args "wd").toList, home := if getStr args "home" = "" then none else some (getStr args "home").toList }
         clean := CV.C11.pathClean
         env := []
         projectName := "p"
